@@ -208,7 +208,7 @@ fn one_upload(r: &mut Report, rng: &mut Rng, shard: usize, schema: &refcodec::la
             chunking,
             pend_between: pend,
             write_chunk: None,
-            fault: Some(Fault { kind: name, at_ack: false, bytes, eof: false }),
+            fault: Some(Fault { kind: name, at_ack: false, bytes, eof: false, followed_by: vec![] }),
             wf: Some(&params),
         };
         r.case(h ^ (0x100 + kind), true);
